@@ -1,1 +1,3 @@
-import IkeModel
+import IkeProofs.Lemmas.Tactics
+import IkeProofs.Lemmas.NoFault
+import IkeProofs.Theorems.C04
